@@ -37,7 +37,7 @@ func init() {
 			"F2 every copy into a fixed-size pooled buffer is bounded by guards whose constants fit the buffer including the destination offset (or the buffer is re-allocated to the source length), and re-slices of pooled buffers use lengths derived from the buffer; F3 two-sided slices have ordered bounds (or the MarshalSize-of-a-header-parsed-from-the-same-bytes idiom) and length-relative bounds are tested; " +
 			"F4 results of Attributes.GetRTPHeader/GetRTCPPackets, rtcp.Unmarshal and pion/rtp Unmarshal are used only on the success branch of their error; A4 read buffers are used only as buffer[:n]; D3 no blocking send/receive on an internal channel on an API path without a close-channel case or default (no wedge).",
 		notDecided:  "crash-freedom itself: panics whose absence rests on arithmetic invariants (ring/bitmap indices seq%size, packetArrivalTimeMap capacity arithmetic, flexfec XOR lengths and constant header offsets), nil dereferences, panics inside pion/rtp and pion/rtcp, termination of loops (all loops over untrusted counts are bounded by 16-bit fields; not checked mechanically), one-sided slices s[n:] whose bound a callee computed",
-		sels:        []sel{s("C7"), s("A5"), so("F6"), so("F5"), s("L4", `jitterbuffer`), s("F1"), s("F2"), so("F3"), s("F4"), s("A4"), s("D3")},
+		sels:        []sel{s("N1"), s("N2"), s("C7"), s("A5"), so("F6"), so("F5"), s("L4", `jitterbuffer`), s("F1"), s("F2"), so("F3"), s("F4"), s("A4"), s("D3")},
 		assumptions: append([]string{"comparisons are credited as guards whatever their direction/strictness (a missing guard is detected, an off-by-one in a present guard is not, except for constant guards of pooled-buffer copies where the arithmetic is checked)", "two evaluations of a condition built only from parameters and constants agree (path classes are split on such conditions)"}, stdAssume...),
 	})
 	def(&propDef{
@@ -54,7 +54,7 @@ func init() {
 		explanation: "Decides for every go statement, goroutine loop, API-path channel operation, lifecycle channel and per-stream container: D1 each goroutine is dominated by WaitGroup.Add on a field of its owner, its entry defers Done, the owner's Close reaches Wait on every path; D2 every blocking loop in a goroutine has a select case on (or ranges over) a channel that a Close method closes, and that case leaves the loop; " +
 			"D3 every send/receive on an internal channel in a function reachable from the API sits in a select with a close-channel case or a default; D4 close(lifecycle) and the start sequence share a mutex; D5 every container keyed by StreamInfo.SSRC that Bind{Local,Remote}Stream fills is emptied by the Unbind of the same direction and binding installs fresh state; D6 Bind starts a goroutine only on the not-closed branch of a closed test; C5(wait) a WaitGroup.Wait or blocking channel operation executed while a lock is held (including a lock held by the caller of Close) has no counterpart goroutine that can need that lock — Close cannot deadlock against the goroutine it waits for.",
 		notDecided:  "wall-clock promptness; goroutines blocked inside a user-supplied writer; that nothing is written after Close returns when the goroutine is accounted but slow; double Close",
-		sels:        []sel{s("C7"), s("D1"), s("D2"), s("D3"), s("D4"), s("D5"), s("D6"), s("C5", `\|wait:`)},
+		sels:        []sel{s("N1"), s("N2"), s("C7"), s("D1"), s("D2"), s("D3"), s("D4"), s("D5"), s("D6"), s("C5", `\|wait:`)},
 		assumptions: append([]string{"channels are identified by the struct fields / make sites they flow through (parameters resolved through static call sites)", "only closes executed from a Close method count as shutdown signals"}, stdAssume...),
 	})
 }
@@ -78,7 +78,7 @@ func init() {
 			"T1 — retain/release typestate: every packet obtained from RTPBuffer.Get is released exactly once after its last use, every slot overwrite in RTPBuffer.Add/Clear releases the previous occupant exactly once, Get hands out only packets that passed a successful Retain (a double release would recycle a buffer that is still being retransmitted); " +
 			"C1 — ring, stream table and reference count are only touched under their mutexes; A1 — the original packet is forwarded exactly once after the copy; D5 — unbind removes the stream's ring.",
 		notDecided:  "which sequence numbers the ring holds (window arithmetic seq%size, half-range tests), RTX header field values, the padding arithmetic, that the retransmission goroutine has finished when Close returns (known finding under C11)",
-		sels: []sel{so("T4", `rtpbuffer`), s("C8", `nack\.|inspected`), s("J4", `\|(internal/rtpbuffer|pkg/nack)[.:]`), so("F6", `rtpbuffer`), s("P3", `rtpbuffer\.RTPBuffer`), s("F2", `rtpbuffer`), s("B", `nack\.\(\*ResponderInterceptor\)`), s("T1"), so("T2"), s("C1", `pkg/nack\.(localStream|ResponderInterceptor)\.|rtpbuffer\.RetainablePacket\.`),
+		sels: []sel{s("J5", `\|(internal/rtpbuffer|pkg/nack)[.:]`), so("T4", `rtpbuffer`), s("C8", `nack\.|inspected`), s("J4", `\|(internal/rtpbuffer|pkg/nack)[.:]`), so("F6", `rtpbuffer`), s("P3", `rtpbuffer\.RTPBuffer`), s("F2", `rtpbuffer`), s("B", `nack\.\(\*ResponderInterceptor\)`), s("T1"), so("T2"), s("C1", `pkg/nack\.(localStream|ResponderInterceptor)\.|rtpbuffer\.RetainablePacket\.`),
 			s("A1", `nack\.\(\*ResponderInterceptor\)`), s("D5", `nack\.ResponderInterceptor`)},
 		assumptions: stdAssume,
 	})
@@ -102,7 +102,7 @@ func init() {
 		explanation: "Decides the structural clauses from which gap-freedom and uniqueness follow: I1 — the extension value derives from the result of one sync/atomic read-modify-write Add(&counter, 1) (never from a separate load, never from Load+Store), and C3 — the counter field is only ever accessed through sync/atomic; I2 — on every path of the writer closure at most one number is allocated, the allocation dominates SetExtension and is not in a loop; " +
 			"A1 — after the extension is set the packet is forwarded exactly once or an error is returned; A3 — nothing else in the caller's header/payload is written; A0 — a stream that did not negotiate the extension gets its writer back unchanged. A single atomic fetch-and-add by 1 hands every caller a distinct consecutive uint32; truncation of consecutive integers to 16 bits is consecutive modulo 2^16.",
 		notDecided:  "a number is consumed when SetExtension fails (ids outside 1..14 / foreign extension profile — outside the quantifier); ordering between allocation and the downstream write of concurrent writers",
-		sels:        []sel{so("A6", `twcc`), s("J3", `\|pkg/twcc[.:]`), s("I1"), s("I2"), s("C3", `twcc\.HeaderExtensionInterceptor`), s("A1", `twcc\.\(\*HeaderExtensionInterceptor\)`), s("A3", `twcc\.\(\*HeaderExtensionInterceptor\)`), s("A0", `twcc\.\(\*HeaderExtensionInterceptor\)`)},
+		sels:        []sel{s("I3"), s("J5", `\|pkg/twcc[.:]`), so("A6", `twcc`), s("J3", `\|pkg/twcc[.:]`), s("I1"), s("I2"), s("C3", `twcc\.HeaderExtensionInterceptor`), s("A1", `twcc\.\(\*HeaderExtensionInterceptor\)`), s("A3", `twcc\.\(\*HeaderExtensionInterceptor\)`), s("A0", `twcc\.\(\*HeaderExtensionInterceptor\)`)},
 		assumptions: std,
 	}
 	props["C18"] = &propDef{
@@ -110,14 +110,14 @@ func init() {
 		explanation: "Decides three structural clauses: L1 — every exported Pop* method of JitterBuffer reaches the queue only on the playing branch of the state test and the other branch returns an error (sibling agreement over Pop, PopAtSequence, PopAtTimestamp); L2 — the playout head is only advanced where the queue call's error is known nil (a failed pop does not disturb the buffer); " +
 			"L3 — every Clear resets each root from which queries traverse (PriorityQueue.next, JitterBuffer.packets, RTPBuffer.packets): assigned nil/fresh, element-cleared over the whole range, or delegated — otherwise Find/PopAt/PopAtTimestamp still return what was buffered before Clear.",
 		notDecided:  "sortedness of the linked list for arbitrary push orders (plain < on uint16, not wrap-aware), length bookkeeping, that PopAtSequence advances the head by one whatever sequence was popped, scalar playout state (playoutReady/playoutHead) after Clear(true)",
-		sels:        []sel{s("J4", `\|pkg/jitterbuffer[.:]`), s("L4", `jitterbuffer`), s("J3", `\|pkg/jitterbuffer[.:]`), s("L1"), s("L2"), s("L3")},
+		sels:        []sel{so("L5", `jitterbuffer`), s("J5", `\|pkg/jitterbuffer[.:]`), s("J4", `\|pkg/jitterbuffer[.:]`), s("L4", `jitterbuffer`), s("J3", `\|pkg/jitterbuffer[.:]`), s("L1"), s("L2"), s("L3")},
 		assumptions: std,
 	}
 	props["C20"] = &propDef{
 		id: "C20", title: "Sequence-number unwrapping: congruence and non-negativity clauses",
 		explanation: "Decides one clause by abstract interpretation of (*Unwrapper).Unwrap's SSA: J1 — with symbols i (the uint16 input) and L (the previous result), every integer value is tracked as an affine form a·i + b·L + c over ℤ/2^16 (constants reduced modulo 65536, width conversions are class-preserving, φ joins must agree, branches are ignored so the clause holds on every path); at every return the result and the stored state are exactly 1·i + 0·L + 0. This proves for all inputs and all prior states that the value returned is congruent to the input modulo 2^16. J2 — by induction on the state (hypothesis: previous result ≥ 0): every path alternative of the stored state and of the returned value, written as an integer linear form over the previous state and the unsigned quantities, is a sum of non-negative terms or is guarded by a dominating `E >= 0` branch whose E is exactly that linear form; hence the result is non-negative for every input sequence.",
 		notDecided:  "the ±2^15 proximity to the previous result (needs interval reasoning coupled to the half-range predicate), and every NTP clause (float64 rounding, monotonicity, 1 µs round trip) — numerical, not decidable by a structural rule",
-		sels:        []sel{s("J4", `\|internal/sequencenumber[.:]`), s("J3", `\|internal/sequencenumber[.:]`), s("J1"), s("J2")},
+		sels:        []sel{s("J5", `\|internal/sequencenumber[.:]`), s("J4", `\|internal/sequencenumber[.:]`), s("J3", `\|internal/sequencenumber[.:]`), s("J1"), s("J2")},
 		assumptions: std,
 	}
 }
@@ -129,7 +129,7 @@ func init() {
 		explanation: "Decides the structural clauses the statement singles out: G1 — in every function that walks []*rtcp.RecvDelta with a cursor, no instruction that advances the cursor is control-dependent (post-dominator based, transitively) on a condition derived from a lookup in long-lived state (a comma-ok map lookup on a field, or a (T,bool) lookup predicate such as feedbackHistory.get): the arrival time decoded for a packet is independent of whether neighbouring packets are still in the history; " +
 			"G2 — in every symbol loop, the counter that feeds the attribution key (feedbackHistoryKey.sequenceNumber / acknowledgement.sequenceNumber) is advanced exactly once on every path through the loop body (path counting), or is the range index; F1 — every index into RecvDeltas / packet-derived slices is guarded; E2 — the flag that lets history.delete release the TWCC mapping is actually set.",
 		notDecided:  "arrival-time arithmetic (reference time ×64 ms, 250 µs deltas, RFC 8888 offsets), LRU contents of the sent-packet history, that each sent packet is reported at most once and in send order (value properties of history.buildReport), zero-valued acknowledgements emitted for unknown packets",
-		sels:        []sel{s("F7"), s("G3", `rtpfb`), s("P3", `rtpfb\.history`), s("J3", `\|(pkg/rtpfb|internal/cc)[.:]`), so("G1"), so("G2"), so("F1", `rtpfb\.convertTWCC|FeedbackAdapter|rtpfb\.convert`), so("E2", `rtpfb\.history`), so("E1", `rtpfb\.history`)},
+		sels:        []sel{s("J5", `\|(pkg/rtpfb|internal/cc)[.:]`), s("F7"), s("G3", `rtpfb`), s("P3", `rtpfb\.history`), s("J3", `\|(pkg/rtpfb|internal/cc)[.:]`), so("G1"), so("G2"), so("F1", `rtpfb\.convertTWCC|FeedbackAdapter|rtpfb\.convert`), so("E2", `rtpfb\.history`), so("E1", `rtpfb\.history`)},
 		assumptions: std,
 	}
 	props["C16"] = &propDef{
@@ -149,7 +149,7 @@ func init() {
 		id: "C07", title: "Sender reports count what was sent (counter clause only)",
 		explanation: "Decides the counter clause: P1 — the sender-report writer closure calls senderStream.processRTP exactly once (path counting) before each identity forward, with the caller's own payload; inside processRTP packetCount is assigned its previous value +1 and octetCount its previous value + len(payload), each exactly once on every path (no branch skips or repeats them); A1 — every packet is forwarded exactly once or rejected; C1/C6 — both counters are only touched under senderStream.m and the read-modify-write is one critical section (no lost update).",
 		notDecided:  "the RTP↔NTP clause entirely: extrapolated RTP timestamp, NTP conversion, modulo-2^32 arithmetic, the out-of-order reference rule, one report per stream per tick",
-		sels:        []sel{s("J4", `\|pkg/report[.:]`), s("P3", `report\.senderStream`), s("P1"), s("A1", `report\.\(\*SenderInterceptor\)`), s("C1", `report\.senderStream\.`), s("C6", `report\.senderStream\.`), s("D5", `report\.SenderInterceptor`)},
+		sels:        []sel{s("J5", `\|pkg/report[.:]`), s("J4", `\|pkg/report[.:]`), s("P3", `report\.senderStream`), s("P1"), s("A1", `report\.\(\*SenderInterceptor\)`), s("C1", `report\.senderStream\.`), s("C6", `report\.senderStream\.`), s("D5", `report\.SenderInterceptor`)},
 		assumptions: std,
 	}
 	props["C14"] = &propDef{
@@ -216,4 +216,13 @@ func init() {
 	add("C18", "J4 no sequence number is reinterpreted as signed of the same width.")
 	add("C20", "J4 no 16-/32-bit magnitude is reinterpreted as signed of the same width in the unwrapper's package (only differences are).")
 	add("C07", "J4 no counter or sequence number of at most 32 bits is reinterpreted as signed of the same width.")
+	// rules added after seed round 7 (DESIGN.md §10.11)
+	add("C02", "N1 a map field that is assigned entries is never set to nil after construction unless every entry assignment follows a nil test or a re-make (assigning into a nil map panics); N2 a pointer field that is reset to nil and tested against nil somewhere is tested before every dereference.")
+	add("C11", "N1/N2 what Close or Unbind reset to nil is either never written through afterwards (maps) or tested before every use (pointers): Bind after Close and a NACK that straddles an Unbind do not panic.")
+	add("C15", "I3 the Bind method hands its writer back unwrapped only under the test that the extension was not negotiated (id == 0): no other condition lets a negotiated stream leave without the extension; J5 no ordered comparison against a wrapping sum.")
+	add("C09", "J5 no ordered comparison of unsigned values of at most 32 bits against a sum of two run-time quantities (first+runLength): a run that crosses the wrap must be walked with a counter or a difference.")
+	add("C04", "J5 no ordered comparison against a wrapping sum of sequence numbers.")
+	add("C18", "J5 no ordered comparison against a wrapping sum of sequence numbers. L5 a node is unlinked through a trailing pointer that is its predecessor in every iteration of the scan, the first included (or the unlink is unreachable in the first iteration because the head was compared before the loop); unlinking through the node's own back pointer is noted, not decided.")
+	add("C20", "J5 no ordered comparison against a wrapping sum in the unwrapper's package.")
+	add("C07", "J5 no ordered comparison against a wrapping sum.")
 }
